@@ -13,6 +13,8 @@ def gen_req(rng):
     op = rng.choice(OPS)
     if op in ("In", "NotIn"):
         vs = [rng.choice(VALS) for _ in range(rng.randint(1, 3))]
+        if rng.random() < 0.06:
+            vs = ["EMPTY"] * rng.randint(1, 4)      # only empty strings: "(,,)" is not read back by labels.Parse (D23)
     elif op in ("Gt", "Lt"):
         vs = [rng.choice(["1", "5", "10", "-3", "007", "0", "9223372036854775807"])]
     else:
